@@ -100,7 +100,7 @@ def run(ctx):
     # quantity with bare number, both orders
     for d in DIMS:
         for op in BINOPS:
-            for n in (0, 0.0, 2, -1.5):
+            for n in (0, 0.0, 2, -1.5, 5e-9, -2e-9, 1e-12, 1e-300):
                 x = rng.choice([0.0, 1.25, -3.0])
                 jobs.append({'op': op, 'a': {'q': qtext(x, d)}, 'b': {'n': n}, 'dims': (d, None)})
                 jobs.append({'op': op, 'a': {'n': n}, 'b': {'q': qtext(x, d)}, 'dims': (None, d)})
@@ -115,6 +115,23 @@ def run(ctx):
         op = rng.choice(['add', 'sub', 'lt', 'le', 'ge', 'eq', 'ne', 'mul', 'div'])
         arr_jobs.append({'op': op, 'a': {'arr': [1.0, -2.0, 0.5], 'u': da}, 'b': {'arr': [1.0, 3.0, 0.25], 'u': db}, 'dims': (da, db)})
         arr_jobs.append({'op': op, 'a': {'arr': [1.0, -2.0, 0.5], 'u': da}, 'b': {'q': qtext(2.0, db)}, 'dims': (da, db)})
+        # a bare array that is not all zero, however small, is not the dimensionless zero
+        arr_jobs.append({'op': rng.choice(['add', 'sub', 'lt', 'ge']), 'a': {'arr': [1.0, -2.0, 0.5], 'u': da}, 'b': {'arr': [1e-9, 0.0, -2e-9], 'u': None},
+                         'dims': (da, 'tiny-bare')})
+    # conversions of array quantities: compatible units give the ratio, incompatible ones are refused
+    conv_jobs = []
+    for da, db in itertools.product(DIMS[:9], DIMS[:9]):
+        conv_jobs.append({'op': 'in_units', 'a': {'arr': [1.0, -2.0, 0.5], 'u': da}, 'u': db, 'dims': (da, db)})
+        conv_jobs.append({'op': 'in_units_fn', 'a': {'arr': [1.0, -2.0, 0.5], 'u': da}, 'u': db, 'dims': (da, db)})
+    cr = vlib.run_impl_sharded('units', conv_jobs)
+    for j, r in zip(conv_jobs, cr):
+        da, db = j['dims']
+        ctx.count('arrconv:%s|%s|%s' % (j['op'], da, db))
+        if da != db and r.get('exc') != 'UnitsError':
+            ctx.violate('arrconv:%s|%s' % (da, db), 'converting an array quantity to units of another dimension did not raise UnitsError',
+                        j, 'UnitsError', r)
+        elif da == db and ('exc' in r or r.get('kind') != 'arr' or any(abs(x - y) > 1e-12 for x, y in zip(r['v'], [1.0, -2.0, 0.5]))):
+            ctx.violate('arrconv-same:%s' % da, 'converting an array quantity to its own units does not give the numbers back', j, [1.0, -2.0, 0.5], r)
     # magnitudes of the operands (through the implementation's own evaluator)
     opers = list(dict.fromkeys(j[k]['q'] for j in jobs for k in ('a', 'b') if 'q' in j[k]))
     rv = dict(zip(opers, vlib.run_impl_sharded('units', [{'op': 'eval', 'text': t} for t in opers])))
@@ -180,7 +197,10 @@ def run(ctx):
         key = 'arr:%s|%s|%s' % (j['op'], da, db)
         ctx.count(key)
         hist['array'] = hist.get('array', 0) + 1
-        if da != db and j['op'] in ('add', 'sub', 'lt', 'le', 'ge'):
+        if db == 'tiny-bare':
+            if r.get('exc') != 'UnitsError':
+                ctx.violate(key, 'array %s with a tiny non-zero bare array did not raise UnitsError' % j['op'], j, 'UnitsError', r)
+        elif da != db and j['op'] in ('add', 'sub', 'lt', 'le', 'ge'):
             if r.get('exc') != 'UnitsError':
                 ctx.violate(key, 'array %s between different dimensions did not raise UnitsError' % j['op'], j, 'UnitsError', r)
         elif da == db and j['op'] in ('add', 'sub') and ('exc' in r or r.get('kind') != 'arrqty'):
